@@ -12,6 +12,10 @@ macro_rules! cfg {
 }
 
 fn main() {
+    vengine::on_worker_stack(real_main);
+}
+
+fn real_main() {
     let mut run = Run::from_args("C19", "c19");
     // quick binary: the narrow targets the property stresses plus one type per digit width
     cfg!(&mut run, d8, 1, i128);
